@@ -44,9 +44,10 @@ func sels(file, recv string, props []string, methods ...string) []sel {
 }
 
 var (
-	pIter  = []string{"C17", "C01", "C13"} // the list loops (C01) and the stack (C13) run on the iterator
+	pIter  = []string{"C17", "C01", "C13", "C02"} // the list loops (C01), the stack (C13) and the set (C02) run on the iterator
 	pIter1 = []string{"C17"}
-	pSeq   = []string{"C01", "C13"}
+	pSeq   = []string{"C01", "C13", "C02"}
+	pSet   = []string{"C02"}
 	pSeq1  = []string{"C01"}
 	pStk   = []string{"C13"}
 )
@@ -65,9 +66,15 @@ var selection = concat(
 	// (c) collection/stack.go and the two list methods it calls (part of (d))
 	sels("collection/stack.go", "stack_", pStk, "AddValue", "RemoveTop", "GetCapacity", "RemoveAll", "GetSize", "IsEmpty", "AsArray"),
 	sels("collection/list.go", "list_", pSeq, "InsertValue", "RemoveValue", "RemoveAll"),
+	// (e) collection/set.go: the binary search and what rests on it (the collator's RankValues is external)
+	sels("collection/set.go", "set_", pSet, "findIndex", "AddValue", "RemoveValue", "ContainsValue", "GetIndex", "GetSize", "GetValue", "IsEmpty", "AsArray"),
 	// (d) the remaining rebuild loops of list.go
 	sels("collection/list.go", "list_", pSeq1, "GetValues", "SetValue", "SetValues", "AppendValue", "AppendValues", "InsertValues", "RemoveValues"),
 )
+
+// methods of types that are not translated: calls go to the oracle [ext] of the semantics; their names are
+// always emitted so that coq/GenRep.v can name them
+var externals = [][2]string{{"collator_", "RankValues"}, {"collator_", "CompareValues"}}
 
 func concat(ls ...[]sel) []sel {
 	var r []sel
@@ -103,6 +110,7 @@ type pkgFacts struct {
 	accessors map[string]string      // class accessor function -> class struct type it instantiates
 	fieldName map[string]bool        // every field name of every struct
 	funcs     map[string]*ast.FuncDecl
+	consts    map[string]int       // integer constants declared as  Name T = iota  followed by bare names
 	files     map[string]*ast.File // by relative file name
 	fileOf    map[*ast.FuncDecl]string
 }
@@ -180,6 +188,25 @@ func (pf *pkgFacts) scan(rel string, f *ast.File) {
 	for _, d := range f.Decls {
 		switch x := d.(type) {
 		case *ast.GenDecl:
+			if x.Tok == token.CONST {
+				// const ( A T = iota; B; C ): the only form of constant the subset knows
+				iota := false
+				for i, sp := range x.Specs {
+					vs := sp.(*ast.ValueSpec)
+					if i == 0 {
+						if len(vs.Values) == 1 {
+							if id, ok := vs.Values[0].(*ast.Ident); ok && id.Name == "iota" {
+								iota = true
+							}
+						}
+					} else if len(vs.Values) != 0 {
+						iota = false
+					}
+					if iota && len(vs.Names) == 1 {
+						pf.consts[vs.Names[0].Name] = i
+					}
+				}
+			}
 			if x.Tok != token.TYPE {
 				continue
 			}
@@ -235,6 +262,8 @@ func (pf *pkgFacts) scan(rel string, f *ast.File) {
 
 type varInfo struct {
 	scalar bool // certainly not a reference to shared mutable storage
+	num    int  // alpha-normal name: the n-th declaration site of the function (receiver = 1, then the parameters)
+	name   string
 }
 
 type scope struct {
@@ -257,16 +286,19 @@ type write struct {
 }
 
 type ftrans struct {
-	pf       *pkgFacts
-	fset     *token.FileSet
-	imports  map[string]bool // import aliases of the file
-	tparams  []string
-	recvVar  string
-	recvType string
-	recvPtr  bool
-	params   []string
-	sc       *scope
-	ids      map[string]bool // identifiers used (for the table)
+	pf           *pkgFacts
+	fset         *token.FileSet
+	imports      map[string]bool // import aliases of the file
+	tparams      []string
+	recvVar      string
+	recvType     string
+	recvPtr      bool
+	params       []string
+	sc           *scope
+	ids          map[string]bool // method and type names used (for the table)
+	nextVar      int
+	namedResults bool
+	locals       []string // real names of the numbered variables, in order (for the report only)
 	// alias analysis
 	edges     []aliasEdge
 	writes    []write
@@ -278,9 +310,51 @@ type ftrans struct {
 	paramWrites []write
 }
 
+// a method or type name: kept (a renamed method or type is an API change)
 func (t *ftrans) id(name string) string {
 	t.ids[name] = true
 	return "id_" + name
+}
+
+// a local variable, parameter or receiver: numbered by declaration site, so that renaming changes nothing
+func (t *ftrans) local(pos token.Pos, name string) string {
+	v := t.lookupVar(name)
+	if v == nil {
+		fail(pos, "identifier %q is not a local variable, parameter or receiver", name)
+	}
+	return fmt.Sprintf("%d%%positive", v.num)
+}
+
+var kindCode = map[string]int{"ZInt": 0, "ZBool": 1, "ZElem": 2, "ZSlice": 3, "ZNil": 4}
+var kindName = map[string]string{"ZInt": "int", "ZBool": "bool", "ZElem": "elem", "ZSlice": "slice", "ZNil": "nil"}
+
+// the canonical identifier of a struct field: the kind of its type (int, bool, type parameter, slice, anything
+// else) and its ordinal among the fields of that kind in the struct.  Renaming a field, and reordering fields of
+// different kinds, change nothing; the notations f_int0 .. f_nil3 are defined in coq/MiniGo.v.
+func (sd *structDecl) fieldID(pos token.Pos, field string) string {
+	count := map[string]int{}
+	for i, f := range sd.fields {
+		k := sd.zk[i]
+		if f == field {
+			if count[k] > 3 {
+				fail(pos, "struct %s has more than four fields of kind %s", sd.name, k)
+			}
+			return fmt.Sprintf("f_%s%d", kindName[k], count[k])
+		}
+		count[k]++
+	}
+	fail(pos, "%q is not a field of struct %s", field, sd.name)
+	return ""
+}
+
+func (sd *structDecl) fieldNum(i int) int {
+	n := 0
+	for j := 0; j < i; j++ {
+		if sd.zk[j] == sd.zk[i] {
+			n++
+		}
+	}
+	return 1 + kindCode[sd.zk[i]] + 5*n
 }
 
 func (t *ftrans) push() { t.sc = &scope{vars: map[string]*varInfo{}, parent: t.sc} }
@@ -301,7 +375,9 @@ func (t *ftrans) declare(id *ast.Ident, scalar bool) {
 			fail(id.Pos(), "declaration of %q shadows a visible variable (MiniGo declarations are function-scoped)", id.Name)
 		}
 	}
-	t.sc.vars[id.Name] = &varInfo{scalar: scalar}
+	t.nextVar++
+	t.sc.vars[id.Name] = &varInfo{scalar: scalar, num: t.nextVar, name: id.Name}
+	t.locals = append(t.locals, id.Name)
 }
 
 // the root variable of a place expression (variable, field path, element, sub-slice, conversion of one); "" if none
@@ -501,7 +577,7 @@ func (t *ftrans) expr(e ast.Expr) string {
 	case *ast.Ident:
 		switch {
 		case t.lookupVar(x.Name) != nil:
-			return "(EVar " + t.id(x.Name) + ")"
+			return "(EVar " + t.local(x.Pos(), x.Name) + ")"
 		case x.Name == "true":
 			return "(EBool true)"
 		case x.Name == "false":
@@ -512,10 +588,17 @@ func (t *ftrans) expr(e ast.Expr) string {
 		fail(x.Pos(), "identifier %q is not a local variable, parameter or receiver", x.Name)
 	case *ast.SelectorExpr:
 		if t.isPkg(x.X) {
+			if k, ok := allConsts[x.Sel.Name]; ok {
+				return fmt.Sprintf("(EInt %d%%Z)", k) // an enumeration constant (const .. = iota) of the library
+			}
 			fail(x.Pos(), "package-qualified name %s.%s outside a call", x.X.(*ast.Ident).Name, x.Sel.Name)
 		}
 		if t.pf.fieldName[x.Sel.Name] {
-			return "(EField " + t.expr(x.X) + " " + t.id(x.Sel.Name) + ")"
+			// fields are identified canonically within their struct: the struct must be known, i.e. the receiver's
+			if rid, ok := x.X.(*ast.Ident); !ok || rid.Name != t.recvVar || t.pf.structs[t.recvType] == nil {
+				fail(x.Pos(), "field access %s on something other than the receiver", x.Sel.Name)
+			}
+			return "(EField " + t.expr(x.X) + " " + t.pf.structs[t.recvType].fieldID(x.Sel.Pos(), x.Sel.Name) + ")"
 		}
 		return "(EMethVal " + t.expr(x.X) + " " + t.id(x.Sel.Name) + ")"
 	case *ast.BinaryExpr:
@@ -567,7 +650,7 @@ func (t *ftrans) composite(cl *ast.CompositeLit) string {
 		}
 		k := kv.Key.(*ast.Ident)
 		t.noteAlias("(new "+nm+")", kv.Value, kv.Pos())
-		fs = append(fs, "("+t.id(k.Name)+", "+t.expr(kv.Value)+")")
+		fs = append(fs, "("+sd.fieldID(k.Pos(), k.Name)+", "+t.expr(kv.Value)+")")
 	}
 	return "(ENew " + t.id(nm) + " " + list(fs) + ")"
 }
@@ -584,7 +667,7 @@ func (t *ftrans) call(c *ast.CallExpr) string {
 	switch f := c.Fun.(type) {
 	case *ast.Ident:
 		if t.lookupVar(f.Name) != nil {
-			return "(ECallVal (EVar " + t.id(f.Name) + ") " + t.exprs(c.Args) + ")"
+			return "(ECallVal (EVar " + t.local(f.Pos(), f.Name) + ") " + t.exprs(c.Args) + ")"
 		}
 		switch f.Name {
 		case "len":
@@ -740,7 +823,7 @@ func (t *ftrans) stmt(s ast.Stmt) string {
 			}
 			for _, n := range vs.Names {
 				t.declare(n, scalarType(vs.Type, t.tparams))
-				names = append(names, t.id(n.Name))
+				names = append(names, t.local(n.Pos(), n.Name))
 			}
 			return "(SVar " + list(names) + " (Some " + zk + ") [])"
 		}
@@ -752,7 +835,7 @@ func (t *ftrans) stmt(s ast.Stmt) string {
 				t.noteAlias(n.Name, vs.Values[i], n.Pos())
 			}
 			t.declare(n, sc)
-			names = append(names, t.id(n.Name))
+			names = append(names, t.local(n.Pos(), n.Name))
 		}
 		return "(SVar " + list(names) + " None " + init + ")"
 	case *ast.AssignStmt:
@@ -773,7 +856,7 @@ func (t *ftrans) stmt(s ast.Stmt) string {
 				if _, here := t.sc.vars[n.Name]; !here {
 					t.declare(n, sc)
 				}
-				names = append(names, t.id(n.Name))
+				names = append(names, t.local(n.Pos(), n.Name))
 			}
 			return "(SVar " + list(names) + " None " + init + ")"
 		case x.Tok == token.ASSIGN:
@@ -882,12 +965,15 @@ func (t *ftrans) stmt(s ast.Stmt) string {
 				return "None"
 			}
 			t.declare(id, scalar)
-			return "(Some " + t.id(id.Name) + ")"
+			return "(Some " + t.local(id.Pos(), id.Name) + ")"
 		}
 		k := kv(x.Key, true)
 		v := kv(x.Value, true)
 		return "(SRange " + k + " " + v + " " + e + " " + t.block(x.Body) + ")"
 	case *ast.ReturnStmt:
+		if t.namedResults && len(x.Results) == 0 {
+			fail(x.Pos(), "bare return in a function with named results is outside the subset")
+		}
 		for _, r := range x.Results {
 			t.noteAlias("(result)", r, r.Pos())
 		}
@@ -921,8 +1007,9 @@ type fnOut struct {
 	End     int      `json:"end_line"`
 	Sha256  string   `json:"sha256"`
 	Props   []string `json:"props"`
+	Source  string   `json:"source"`
+	Locals  []string `json:"locals"` // real names of the variables 1, 2, ..
 	term    string
-	source  string
 	trans   *ftrans
 	aliasOK []string
 }
@@ -936,6 +1023,7 @@ type errOut struct {
 }
 
 var allAccessors = map[string]string{}
+var allConsts = map[string]int{}
 
 func translate(pf *pkgFacts, fset *token.FileSet, fd *ast.FuncDecl, file *ast.File, ids map[string]bool) (fo *fnOut, terrv *terr) {
 	defer func() {
@@ -997,27 +1085,38 @@ func translate(pf *pkgFacts, fset *token.FileSet, fd *ast.FuncDecl, file *ast.Fi
 		for _, n := range p.Names {
 			t.declare(n, scalarType(p.Type, t.tparams))
 			t.params = append(t.params, n.Name)
-			params = append(params, t.id(n.Name))
+			params = append(params, t.local(n.Pos(), n.Name))
 		}
 	}
+	// named results are local variables holding zero values; a bare return (which would return them) is refused
+	var resultDecls []string
 	if fd.Type.Results != nil {
 		for _, r := range fd.Type.Results.List {
-			if len(r.Names) != 0 {
-				fail(r.Pos(), "named results are outside the subset")
+			for _, n := range r.Names {
+				zk := zkindOf(r.Type, t.tparams)
+				if zk == "" {
+					fail(r.Type.Pos(), "zero value of the type of the named result is outside the subset")
+				}
+				t.declare(n, scalarType(r.Type, t.tparams))
+				t.namedResults = true
+				resultDecls = append(resultDecls, "(SVar ["+t.local(n.Pos(), n.Name)+"] (Some "+zk+") [])")
 			}
 		}
 	}
 	body := t.block(fd.Body)
+	if len(resultDecls) > 0 {
+		body = "(" + list(resultDecls) + " ++ " + body + ")"
+	}
 	t.id(t.recvType)
 	t.id(fd.Name.Name)
-	term := fmt.Sprintf("{| fn_recv := %s; fn_params := %s;\n     fn_body := %s |}", t.id(t.recvVar), list(params), body)
+	term := fmt.Sprintf("{| fn_recv := %s; fn_params := %s;\n     fn_body := %s |}", t.local(rf.Pos(), t.recvVar), list(params), body)
 	var src bytes.Buffer
 	start, end := fset.Position(fd.Pos()), fset.Position(fd.End())
 	data, _ := os.ReadFile(start.Filename)
 	src.Write(data[start.Offset:end.Offset])
 	sum := sha256.Sum256(src.Bytes())
 	return &fnOut{Type: t.recvType, Method: fd.Name.Name, Coq: "fn_" + t.recvType + "_" + fd.Name.Name,
-		Start: start.Line, End: end.Line, Sha256: fmt.Sprintf("%x", sum), term: term, source: src.String(), trans: t}, nil
+		Start: start.Line, End: end.Line, Sha256: fmt.Sprintf("%x", sum), term: term, Source: src.String(), Locals: t.locals, trans: t}, nil
 }
 
 // ---------------------------------------------------------------- aliasing
@@ -1107,7 +1206,7 @@ func main() {
 	parseErr := map[string]string{}
 	for _, dir := range []string{"agent", "collection"} {
 		pf := &pkgFacts{structs: map[string]*structDecl{}, sliceTys: map[string]bool{}, accessors: map[string]string{},
-			fieldName: map[string]bool{}, funcs: map[string]*ast.FuncDecl{}, files: map[string]*ast.File{}, fileOf: map[*ast.FuncDecl]string{}}
+			fieldName: map[string]bool{}, consts: map[string]int{}, funcs: map[string]*ast.FuncDecl{}, files: map[string]*ast.File{}, fileOf: map[*ast.FuncDecl]string{}}
 		pkgs[dir] = pf
 		matches, err := filepath.Glob(filepath.Join(root, "v4", dir, "*.go"))
 		if err != nil || len(matches) == 0 {
@@ -1129,6 +1228,9 @@ func main() {
 		}
 		for k, v := range pf.accessors {
 			allAccessors[k] = v
+		}
+		for k, v := range pf.consts {
+			allConsts[k] = v
 		}
 	}
 	for _, s := range selection {
@@ -1170,20 +1272,19 @@ func main() {
 		ids[s.Recv] = true
 		ids[s.Method] = true
 	}
+	for _, e := range externals {
+		ids[e[0]] = true
+		ids[e[1]] = true
+	}
+	// structs: those that are named by the selection or by a translated composite literal
 	var structNames []string
+	structOf := map[string]*structDecl{}
 	for _, pf := range pkgs {
 		for n, sd := range pf.structs {
-			if !strings.HasSuffix(n, "_") {
-				continue
+			if ids[n] {
+				structNames = append(structNames, n)
+				structOf[n] = sd
 			}
-			structNames = append(structNames, n)
-			ids[n] = true
-			for _, f := range sd.fields {
-				ids[f] = true
-			}
-		}
-		for n := range pf.sliceTys {
-			ids[n] = true
 		}
 	}
 	sort.Strings(structNames)
@@ -1193,18 +1294,23 @@ func main() {
 	}
 	sort.Strings(names)
 
+	// GenSrc.v is pure data and does not mention anything that an alpha-renaming, a reordering of declarations, a
+	// comment or a moved line would change: the Go text, the real names of variables and fields and the
+	// file:line spans are in the report only.
 	var b bytes.Buffer
 	b.WriteString("(* GenSrc.v — GENERATED by tools/gotrans from the Go sources on every run; do not edit.\n")
-	b.WriteString("   One MiniGo term (coq/MiniGo.v) per selected method; the Go text is quoted above each. *)\n")
+	b.WriteString("   One MiniGo term (coq/MiniGo.v) per selected method, in the order of the selection table.\n")
+	b.WriteString("   Alpha-normal: variables are numbered by declaration site (receiver = 1, parameters, locals), struct\n")
+	b.WriteString("   fields are f_<kind><ordinal among the fields of that kind>; method and type names are kept.\n")
+	b.WriteString("   The Go text, the real names and the source positions are in build/gotrans.json. *)\n")
 	b.WriteString("From Verif Require Import Base MiniGo.\nFrom Coq Require Import PArith.\n\n")
-	b.WriteString("(* identifiers (variables, fields, methods, types share one numbering) *)\n")
+	b.WriteString("(* method and type names (numbered from 101; 1..20 are the canonical field identifiers of MiniGo.v) *)\n")
 	for i, n := range names {
-		fmt.Fprintf(&b, "Notation id_%s := %d%%positive (only parsing).\n", n, i+1)
+		fmt.Fprintf(&b, "Notation id_%s := %d%%positive (only parsing).\n", n, i+101)
 	}
 	b.WriteString("\n")
 	for _, f := range fns {
-		fmt.Fprintf(&b, "(* %s:%d-%d  sha256 %s\n%s\n*)\n", f.File, f.Start, f.End, f.Sha256[:16], coqComment(f.source))
-		fmt.Fprintf(&b, "Definition %s : fndef :=\n  %s.\n\n", f.Coq, f.term)
+		fmt.Fprintf(&b, "(* %s.%s *)\nDefinition %s : fndef :=\n  %s.\n\n", f.Type, f.Method, f.Coq, f.term)
 	}
 	b.WriteString("Definition prog : program := {|\n  p_fns := [\n")
 	for i, f := range fns {
@@ -1215,16 +1321,24 @@ func main() {
 		fmt.Fprintf(&b, "    ((id_%s, id_%s), %s)%s\n", f.Type, f.Method, f.Coq, sep)
 	}
 	b.WriteString("  ];\n  p_structs := [\n")
+	fieldNames := map[string]map[string]string{}
 	for i, n := range structNames {
-		var sd *structDecl
-		for _, pf := range pkgs {
-			if s, ok := pf.structs[n]; ok {
-				sd = s
-			}
+		sd := structOf[n]
+		type fl struct {
+			num  int
+			text string
 		}
-		var fs []string
+		var fls []fl
+		fieldNames[n] = map[string]string{}
 		for j, f := range sd.fields {
-			fs = append(fs, fmt.Sprintf("(id_%s, %s)", f, sd.zk[j]))
+			id := sd.fieldID(token.NoPos, f)
+			fls = append(fls, fl{sd.fieldNum(j), fmt.Sprintf("(%s, %s)", id, sd.zk[j])})
+			fieldNames[n][id] = f
+		}
+		sort.Slice(fls, func(a, b int) bool { return fls[a].num < fls[b].num }) // canonical order: by identifier
+		var fs []string
+		for _, f := range fls {
+			fs = append(fs, f.text)
 		}
 		sep := ";"
 		if i == len(structNames)-1 {
@@ -1241,7 +1355,7 @@ func main() {
 			os.Exit(2)
 		}
 	}
-	rep := map[string]any{"functions": fns, "errors": errs}
+	rep := map[string]any{"functions": fns, "errors": errs, "fields": fieldNames}
 	if errs == nil {
 		rep["errors"] = []errOut{}
 	}
